@@ -88,40 +88,40 @@ theorem determined_prohibitive (F B : Nat) (hB : B < F) : Determined 1 F B := by
   exact ⟨h2, h1⟩
 
 /-- counts of a reported pair are bounded by `ploidy × positions` -/
-theorem polyCompare_admissible_bounds (p sc fc : Nat) (hp : p ≤ 4) (cols : List (List Nat × List Nat)) :
+theorem polyCompare_admissible_bounds (p sc fc : Nat) (cols : List (List Nat × List Nat)) :
     ∀ sf ∈ (polyCompare true p sc fc cols).admissible, sf.1 ≤ p * cols.length ∧ sf.2 ≤ p * cols.length := by
   intro sf hsf
   obtain ⟨s, hs, h1, h2⟩ := polyCompare_admissible_realised true p sc fc cols (Or.inl rfl) sf hsf
   obtain ⟨hl, hall⟩ := (mem_seqs _ _ _).1 hs
-  have hlen : ∀ r ∈ s, r.length = p := fun r hr => perms_length p hp r (hall r hr)
+  have hlen : ∀ r ∈ s, r.length = p := fun r hr => perms_length p r (hall r hr)
   constructor
   · rw [← h1, ← hl]; exact seqSwitches_le p s hlen
   · rw [← h2]; exact seqFlips_le p s cols hlen
 
 /-- in a determined regime all admissible pairs coincide with the representative -/
-theorem polyCompare_admissible_unique (p sc fc : Nat) (hp : p ≤ 4) (cols : List (List Nat × List Nat))
+theorem polyCompare_admissible_unique (p sc fc : Nat) (cols : List (List Nat × List Nat))
     (hd : Determined sc fc (p * cols.length)) :
     ∀ sf ∈ (polyCompare true p sc fc cols).admissible, sf = (polyCompare true p sc fc cols).rep := by
   intro sf hsf
-  have hrep := polyCompare_rep_admissible true p sc fc (perms_ne_nil p hp) cols
+  have hrep := polyCompare_rep_admissible true p sc fc (perms_ne_nil p) cols
   have c1 := polyCompare_admissible_cost true p sc fc cols (Or.inl rfl) sf hsf
   have c2 := polyCompare_admissible_cost true p sc fc cols (Or.inl rfl) _ hrep
-  obtain ⟨b1, b2⟩ := polyCompare_admissible_bounds p sc fc hp cols sf hsf
-  obtain ⟨b3, b4⟩ := polyCompare_admissible_bounds p sc fc hp cols _ hrep
+  obtain ⟨b1, b2⟩ := polyCompare_admissible_bounds p sc fc cols sf hsf
+  obtain ⟨b3, b4⟩ := polyCompare_admissible_bounds p sc fc cols _ hrep
   obtain ⟨e1, e2⟩ := hd _ _ _ _ b1 b2 b3 b4 (c1.trans c2.symm)
   exact Prod.ext e1 e2
 
 /-- in a determined regime two instances of the same size and the same optimal cost report the same pair -/
-theorem polyCompare_rep_eq_of_cost_eq (p sc fc : Nat) (hp : p ≤ 4) (cols cols' : List (List Nat × List Nat))
+theorem polyCompare_rep_eq_of_cost_eq (p sc fc : Nat) (cols cols' : List (List Nat × List Nat))
     (hlen : cols'.length = cols.length) (hd : Determined sc fc (p * cols.length))
     (hc : (polyCompare true p sc fc cols').cost = (polyCompare true p sc fc cols).cost) :
     (polyCompare true p sc fc cols').rep = (polyCompare true p sc fc cols).rep := by
-  have r1 := polyCompare_rep_admissible true p sc fc (perms_ne_nil p hp) cols
-  have r2 := polyCompare_rep_admissible true p sc fc (perms_ne_nil p hp) cols'
+  have r1 := polyCompare_rep_admissible true p sc fc (perms_ne_nil p) cols
+  have r2 := polyCompare_rep_admissible true p sc fc (perms_ne_nil p) cols'
   have c1 := polyCompare_admissible_cost true p sc fc cols (Or.inl rfl) _ r1
   have c2 := polyCompare_admissible_cost true p sc fc cols' (Or.inl rfl) _ r2
-  obtain ⟨b1, b2⟩ := polyCompare_admissible_bounds p sc fc hp cols _ r1
-  obtain ⟨b3, b4⟩ := polyCompare_admissible_bounds p sc fc hp cols' _ r2
+  obtain ⟨b1, b2⟩ := polyCompare_admissible_bounds p sc fc cols _ r1
+  obtain ⟨b3, b4⟩ := polyCompare_admissible_bounds p sc fc cols' _ r2
   rw [hlen] at b3 b4
   obtain ⟨e1, e2⟩ := hd _ _ _ _ b3 b4 b1 b2 (by rw [c2, c1, hc])
   exact Prod.ext e1 e2
@@ -167,73 +167,73 @@ theorem polyCols_length (ph0 ph1 : List Hap) (n : Nat) : (polyCols ph0 ph1 n).le
 
 /-! ### the calculator's cost under relabelling -/
 
-theorem cost_left_le (p sc fc : Nat) (hp : p ≤ 4) (τ ι : Perm) (hι : ι ∈ perms p) (hinv : IsInv p τ ι)
+theorem cost_left_le (p sc fc : Nat) (τ ι : Perm) (hι : ι ∈ perms p) (hinv : IsInv p τ ι)
     (ph0 ph1 : List Hap) (n : Nat) :
     (polyCompare true p sc fc (polyCols (relabelHaps τ ph0) ph1 n)).cost
       ≤ (polyCompare true p sc fc (polyCols ph0 ph1 n)).cost := by
-  rw [polyCompare_cost_eq_bruteValue true p sc fc hp, polyCompare_cost_eq_bruteValue true p sc fc hp,
+  rw [polyCompare_cost_eq_bruteValue true p sc fc, polyCompare_cost_eq_bruteValue true p sc fc,
     polyCols_relabel_left]
-  apply bruteValue_transport_le (perms p) (perms_ne_nil p hp) sc fc (fun σ => relabel σ ι)
-  · intro σ hσ; exact perms_comp p hp σ hσ ι hι
+  apply bruteValue_transport_le (perms p) (perms_ne_nil p) sc fc (fun σ => relabel σ ι)
+  · intro σ hσ; exact perms_comp p σ hσ ι hι
   · intro a ha b hb
-    exact hamming_relabel_left p τ ι a b hinv (perms_entries_lt p hp a ha) (perms_entries_lt p hp b hb)
+    exact hamming_relabel_left p τ ι a b hinv (perms_entries_lt p a ha) (perms_entries_lt p b hb)
   · intro σ hσ c _
-    exact numFlips_relabel_left p τ ι σ c.1 c.2 hinv (perms_entries_lt p hp σ hσ)
+    exact numFlips_relabel_left p τ ι σ c.1 c.2 hinv (perms_entries_lt p σ hσ)
 
-theorem cost_left_eq (p sc fc : Nat) (hp : p ≤ 4) (τ : Perm) (hτ : τ ∈ perms p)
+theorem cost_left_eq (p sc fc : Nat) (τ : Perm) (hτ : τ ∈ perms p)
     (ph0 ph1 : List Hap) (n : Nat) (hl : ph0.length = p) :
     (polyCompare true p sc fc (polyCols (relabelHaps τ ph0) ph1 n)).cost
       = (polyCompare true p sc fc (polyCols ph0 ph1 n)).cost := by
-  obtain ⟨ι, hι, hinv⟩ := perms_inverse p hp τ hτ
-  apply Nat.le_antisymm (cost_left_le p sc fc hp τ ι hι hinv ph0 ph1 n)
-  have := cost_left_le p sc fc hp ι τ hτ hinv.symm (relabelHaps τ ph0) ph1 n
+  obtain ⟨ι, hι, hinv⟩ := perms_inverse p τ hτ
+  apply Nat.le_antisymm (cost_left_le p sc fc τ ι hι hinv ph0 ph1 n)
+  have := cost_left_le p sc fc ι τ hτ hinv.symm (relabelHaps τ ph0) ph1 n
   rwa [relabelHaps_inv hinv ph0 hl] at this
 
 theorem column_length (ph : List Hap) (i : Nat) : (column ph i).length = ph.length := by simp [column]
 
-theorem cost_right_le (p sc fc : Nat) (hp : p ≤ 4) (υ : Perm) (hυ : υ ∈ perms p)
+theorem cost_right_le (p sc fc : Nat) (υ : Perm) (hυ : υ ∈ perms p)
     (ph0 ph1 : List Hap) (n : Nat) (hl : ph1.length = p) :
     (polyCompare true p sc fc (polyCols ph0 (relabelHaps υ ph1) n)).cost
       ≤ (polyCompare true p sc fc (polyCols ph0 ph1 n)).cost := by
-  rw [polyCompare_cost_eq_bruteValue true p sc fc hp, polyCompare_cost_eq_bruteValue true p sc fc hp,
+  rw [polyCompare_cost_eq_bruteValue true p sc fc, polyCompare_cost_eq_bruteValue true p sc fc,
     polyCols_relabel_right]
-  apply bruteValue_transport_le (perms p) (perms_ne_nil p hp) sc fc (fun σ => relabel υ σ)
-  · intro σ hσ; exact perms_comp p hp υ hυ σ hσ
+  apply bruteValue_transport_le (perms p) (perms_ne_nil p) sc fc (fun σ => relabel υ σ)
+  · intro σ hσ; exact perms_comp p υ hυ σ hσ
   · intro a ha b hb
-    exact hamming_relabel_right p υ a b (perms_perm_range p hp υ hυ) (perms_length p hp a ha) (perms_length p hp b hb)
+    exact hamming_relabel_right p υ a b (perms_perm_range p υ hυ) (perms_length p a ha) (perms_length p b hb)
   · intro σ hσ c hc
     simp only [polyCols, List.mem_map] at hc
     obtain ⟨i, _, rfl⟩ := hc
-    exact numFlips_relabel_right p υ σ _ _ (perms_perm_range p hp υ hυ) (perms_length p hp σ hσ)
+    exact numFlips_relabel_right p υ σ _ _ (perms_perm_range p υ hυ) (perms_length p σ hσ)
       (by rw [column_length, hl])
 
-theorem cost_right_eq (p sc fc : Nat) (hp : p ≤ 4) (υ : Perm) (hυ : υ ∈ perms p)
+theorem cost_right_eq (p sc fc : Nat) (υ : Perm) (hυ : υ ∈ perms p)
     (ph0 ph1 : List Hap) (n : Nat) (hl : ph1.length = p) :
     (polyCompare true p sc fc (polyCols ph0 (relabelHaps υ ph1) n)).cost
       = (polyCompare true p sc fc (polyCols ph0 ph1 n)).cost := by
-  obtain ⟨ι, hι, hinv⟩ := perms_inverse p hp υ hυ
-  apply Nat.le_antisymm (cost_right_le p sc fc hp υ hυ ph0 ph1 n hl)
-  have := cost_right_le p sc fc hp ι hι ph0 (relabelHaps υ ph1) n
-    (by rw [relabelHaps_length]; exact perms_length p hp υ hυ)
+  obtain ⟨ι, hι, hinv⟩ := perms_inverse p υ hυ
+  apply Nat.le_antisymm (cost_right_le p sc fc υ hυ ph0 ph1 n hl)
+  have := cost_right_le p sc fc ι hι ph0 (relabelHaps υ ph1) n
+    (by rw [relabelHaps_length]; exact perms_length p υ hυ)
   rwa [relabelHaps_inv hinv ph1 hl] at this
 
 /-- both phasings relabelled -/
-theorem cost_relabel_eq (p sc fc : Nat) (hp : p ≤ 4) (τ υ : Perm) (hτ : τ ∈ perms p) (hυ : υ ∈ perms p)
+theorem cost_relabel_eq (p sc fc : Nat) (τ υ : Perm) (hτ : τ ∈ perms p) (hυ : υ ∈ perms p)
     (ph0 ph1 : List Hap) (n : Nat) (h0 : ph0.length = p) (h1 : ph1.length = p) :
     (polyCompare true p sc fc (polyCols (relabelHaps τ ph0) (relabelHaps υ ph1) n)).cost
       = (polyCompare true p sc fc (polyCols ph0 ph1 n)).cost := by
-  rw [cost_left_eq p sc fc hp τ hτ ph0 _ n h0, cost_right_eq p sc fc hp υ hυ ph0 ph1 n h1]
+  rw [cost_left_eq p sc fc τ hτ ph0 _ n h0, cost_right_eq p sc fc υ hυ ph0 ph1 n h1]
 
 /-- in a determined regime the reported pair does not depend on the listing order either -/
-theorem rep_relabel_eq (p sc fc : Nat) (hp : p ≤ 4) (τ υ : Perm) (hτ : τ ∈ perms p) (hυ : υ ∈ perms p)
+theorem rep_relabel_eq (p sc fc : Nat) (τ υ : Perm) (hτ : τ ∈ perms p) (hυ : υ ∈ perms p)
     (ph0 ph1 : List Hap) (n : Nat) (h0 : ph0.length = p) (h1 : ph1.length = p)
     (hd : Determined sc fc (p * n)) :
     (polyCompare true p sc fc (polyCols (relabelHaps τ ph0) (relabelHaps υ ph1) n)).rep
       = (polyCompare true p sc fc (polyCols ph0 ph1 n)).rep := by
-  apply polyCompare_rep_eq_of_cost_eq p sc fc hp
+  apply polyCompare_rep_eq_of_cost_eq p sc fc
   · simp [polyCols_length]
   · rw [polyCols_length]; exact hd
-  · exact cost_relabel_eq p sc fc hp τ υ hτ hυ ph0 ph1 n h0 h1
+  · exact cost_relabel_eq p sc fc τ υ hτ hυ ph0 ph1 n h0 h1
 
 /-! ### minimum Hamming distance -/
 
@@ -281,39 +281,39 @@ theorem permHamming_relabel_right (p : Nat) (υ σ : Perm) (hυ : υ.Perm (List.
   simp only [relabelHaps, relabel, permHamming_map_map]
   exact (hυ.map _).sum_nat
 
-theorem minHammingNum_left_le (p : Nat) (hp : p ≤ 4) (τ ι : Perm) (hτ : τ ∈ perms p) (hι : ι ∈ perms p)
+theorem minHammingNum_left_le (p : Nat) (τ ι : Perm) (hτ : τ ∈ perms p) (hι : ι ∈ perms p)
     (hinv : IsInv p τ ι) (ph0 ph1 : List Hap) (h0 : ph0.length = p) :
     minHammingNum (relabelHaps τ ph0) ph1 ≤ minHammingNum ph0 ph1 := by
-  simp only [minHammingNum, relabelHaps_length, perms_length p hp τ hτ, h0]
-  apply listMin_map_le (perms p) (perms_ne_nil p hp) (fun σ => relabel σ ι)
-  · intro σ hσ; exact perms_comp p hp σ hσ ι hι
-  · intro σ hσ; exact permHamming_relabel_left p τ ι σ hinv (perms_entries_lt p hp σ hσ) ph0 ph1
+  simp only [minHammingNum, relabelHaps_length, perms_length p τ hτ, h0]
+  apply listMin_map_le (perms p) (perms_ne_nil p) (fun σ => relabel σ ι)
+  · intro σ hσ; exact perms_comp p σ hσ ι hι
+  · intro σ hσ; exact permHamming_relabel_left p τ ι σ hinv (perms_entries_lt p σ hσ) ph0 ph1
 
-theorem minHammingNum_left_eq (p : Nat) (hp : p ≤ 4) (τ : Perm) (hτ : τ ∈ perms p)
+theorem minHammingNum_left_eq (p : Nat) (τ : Perm) (hτ : τ ∈ perms p)
     (ph0 ph1 : List Hap) (h0 : ph0.length = p) :
     minHammingNum (relabelHaps τ ph0) ph1 = minHammingNum ph0 ph1 := by
-  obtain ⟨ι, hι, hinv⟩ := perms_inverse p hp τ hτ
-  apply Nat.le_antisymm (minHammingNum_left_le p hp τ ι hτ hι hinv ph0 ph1 h0)
-  have := minHammingNum_left_le p hp ι τ hι hτ hinv.symm (relabelHaps τ ph0) ph1
-    (by rw [relabelHaps_length]; exact perms_length p hp τ hτ)
+  obtain ⟨ι, hι, hinv⟩ := perms_inverse p τ hτ
+  apply Nat.le_antisymm (minHammingNum_left_le p τ ι hτ hι hinv ph0 ph1 h0)
+  have := minHammingNum_left_le p ι τ hι hτ hinv.symm (relabelHaps τ ph0) ph1
+    (by rw [relabelHaps_length]; exact perms_length p τ hτ)
   rwa [relabelHaps_inv hinv ph0 h0] at this
 
-theorem minHammingNum_right_le (p : Nat) (hp : p ≤ 4) (υ : Perm) (hυ : υ ∈ perms p)
+theorem minHammingNum_right_le (p : Nat) (υ : Perm) (hυ : υ ∈ perms p)
     (ph0 ph1 : List Hap) (h0 : ph0.length = p) (h1 : ph1.length = p) :
     minHammingNum ph0 (relabelHaps υ ph1) ≤ minHammingNum ph0 ph1 := by
   simp only [minHammingNum, h0]
-  apply listMin_map_le (perms p) (perms_ne_nil p hp) (fun σ => relabel υ σ)
-  · intro σ hσ; exact perms_comp p hp υ hυ σ hσ
+  apply listMin_map_le (perms p) (perms_ne_nil p) (fun σ => relabel υ σ)
+  · intro σ hσ; exact perms_comp p υ hυ σ hσ
   · intro σ hσ
-    exact permHamming_relabel_right p υ σ (perms_perm_range p hp υ hυ) (perms_length p hp σ hσ) ph0 ph1 h1
+    exact permHamming_relabel_right p υ σ (perms_perm_range p υ hυ) (perms_length p σ hσ) ph0 ph1 h1
 
-theorem minHammingNum_right_eq (p : Nat) (hp : p ≤ 4) (υ : Perm) (hυ : υ ∈ perms p)
+theorem minHammingNum_right_eq (p : Nat) (υ : Perm) (hυ : υ ∈ perms p)
     (ph0 ph1 : List Hap) (h0 : ph0.length = p) (h1 : ph1.length = p) :
     minHammingNum ph0 (relabelHaps υ ph1) = minHammingNum ph0 ph1 := by
-  obtain ⟨ι, hι, hinv⟩ := perms_inverse p hp υ hυ
-  apply Nat.le_antisymm (minHammingNum_right_le p hp υ hυ ph0 ph1 h0 h1)
-  have := minHammingNum_right_le p hp ι hι ph0 (relabelHaps υ ph1) h0
-    (by rw [relabelHaps_length]; exact perms_length p hp υ hυ)
+  obtain ⟨ι, hι, hinv⟩ := perms_inverse p υ hυ
+  apply Nat.le_antisymm (minHammingNum_right_le p υ hυ ph0 ph1 h0 h1)
+  have := minHammingNum_right_le p ι hι ph0 (relabelHaps υ ph1) h0
+    (by rw [relabelHaps_length]; exact perms_length p υ hυ)
   rwa [relabelHaps_inv hinv ph1 h1] at this
 
 /-! ### genotype-matching positions -/
@@ -401,27 +401,27 @@ theorem matchingPos_length_le (ph0 ph1 : List Hap) (n : Nat) : (matchingPos ph0 
 
 /-- the polyploid branch as repaired (single-position and tie-breaking fixes) is invariant under listing the
 haplotypes of both phasings in other orders -/
-theorem polyBlock_relabel (p n : Nat) (hp : p ≤ 4) (τ υ : Perm) (hτ : τ ∈ perms p) (hυ : υ ∈ perms p)
+theorem polyBlock_relabel (p n : Nat) (τ υ : Perm) (hτ : τ ∈ perms p) (hυ : υ ∈ perms p)
     (ph0 ph1 : List Hap) (h0 : ph0.length = p) (h1 : ph1.length = p) :
     polyBlock true true (relabelHaps τ ph0) (relabelHaps υ ph1) p n = polyBlock true true ph0 ph1 p n := by
-  have pτ := perms_perm_range p hp τ hτ
-  have pυ := perms_perm_range p hp υ hυ
+  have pτ := perms_perm_range p τ hτ
+  have pυ := perms_perm_range p υ hυ
   have hmp := matchingPos_relabel p τ υ pτ pυ ph0 ph1 n h0 h1
   have hmh : minHammingNum (relabelHaps τ ph0) (relabelHaps υ ph1) = minHammingNum ph0 ph1 := by
-    rw [minHammingNum_left_eq p hp τ hτ ph0 _ h0, minHammingNum_right_eq p hp υ hυ ph0 ph1 h0 h1]
+    rw [minHammingNum_left_eq p τ hτ ph0 _ h0, minHammingNum_right_eq p υ hυ ph0 ph1 h0 h1]
   have hsf : (polySwitchFlips true true (relabelHaps τ ph0) (relabelHaps υ ph1) p n).rep
       = (polySwitchFlips true true ph0 ph1 p n).rep := by
     simp only [polySwitchFlips, if_true]
-    exact rep_relabel_eq p _ _ hp τ υ hτ hυ ph0 ph1 n h0 h1 (determined_lex _ _ (by omega))
+    exact rep_relabel_eq p _ _ τ υ hτ hυ ph0 ph1 n h0 h1 (determined_lex _ _ (by omega))
   have hsw : (polyCompare true p 1 (2 * n * p + 1)
         (polyCols ((relabelHaps τ ph0).map (restrictTo · (matchingPos ph0 ph1 n)))
           ((relabelHaps υ ph1).map (restrictTo · (matchingPos ph0 ph1 n))) (matchingPos ph0 ph1 n).length)).rep
       = (polyCompare true p 1 (2 * n * p + 1)
         (polyCols (ph0.map (restrictTo · (matchingPos ph0 ph1 n))) (ph1.map (restrictTo · (matchingPos ph0 ph1 n)))
           (matchingPos ph0 ph1 n).length)).rep := by
-    rw [restrict_relabelHaps τ ph0 _ (by rw [h0]; exact perms_entries_lt p hp τ hτ),
-      restrict_relabelHaps υ ph1 _ (by rw [h1]; exact perms_entries_lt p hp υ hυ)]
-    apply rep_relabel_eq p _ _ hp τ υ hτ hυ _ _ _ (by simpa using h0) (by simpa using h1)
+    rw [restrict_relabelHaps τ ph0 _ (by rw [h0]; exact perms_entries_lt p τ hτ),
+      restrict_relabelHaps υ ph1 _ (by rw [h1]; exact perms_entries_lt p υ hυ)]
+    apply rep_relabel_eq p _ _ τ υ hτ hυ _ _ _ (by simpa using h0) (by simpa using h1)
     apply determined_prohibitive
     have h3 := matchingPos_length_le ph0 ph1 n
     have h4 : p * (matchingPos ph0 ph1 n).length ≤ p * n := Nat.mul_le_mul_left p h3
@@ -447,49 +447,49 @@ theorem attainable_transport (ps : List Perm) (T : Perm → Perm)
   obtain ⟨t1, t2, t3⟩ := seq_transport ps T C cols hT hH hF s hall
   exact ⟨s.map T, (mem_seqs _ _ _).2 ⟨by simp [hl], t1⟩, by rw [t2, h1], by rw [t3, h2]⟩
 
-theorem attainable_left_imp (p : Nat) (hp : p ≤ 4) (τ ι : Perm) (hι : ι ∈ perms p) (hinv : IsInv p τ ι)
+theorem attainable_left_imp (p : Nat) (τ ι : Perm) (hι : ι ∈ perms p) (hinv : IsInv p τ ι)
     (ph0 ph1 : List Hap) (n : Nat) (sf : Nat × Nat) (h : Attainable (perms p) (polyCols ph0 ph1 n) sf) :
     Attainable (perms p) (polyCols (relabelHaps τ ph0) ph1 n) sf := by
   rw [polyCols_relabel_left]
   apply attainable_transport (perms p) (fun σ => relabel σ ι) _ _ _ _ _ sf h
-  · intro σ hσ; exact perms_comp p hp σ hσ ι hι
+  · intro σ hσ; exact perms_comp p σ hσ ι hι
   · intro a ha b hb
-    exact hamming_relabel_left p τ ι a b hinv (perms_entries_lt p hp a ha) (perms_entries_lt p hp b hb)
+    exact hamming_relabel_left p τ ι a b hinv (perms_entries_lt p a ha) (perms_entries_lt p b hb)
   · intro σ hσ c _
-    exact numFlips_relabel_left p τ ι σ c.1 c.2 hinv (perms_entries_lt p hp σ hσ)
+    exact numFlips_relabel_left p τ ι σ c.1 c.2 hinv (perms_entries_lt p σ hσ)
 
-theorem attainable_right_imp (p : Nat) (hp : p ≤ 4) (υ : Perm) (hυ : υ ∈ perms p)
+theorem attainable_right_imp (p : Nat) (υ : Perm) (hυ : υ ∈ perms p)
     (ph0 ph1 : List Hap) (n : Nat) (hl : ph1.length = p) (sf : Nat × Nat)
     (h : Attainable (perms p) (polyCols ph0 ph1 n) sf) :
     Attainable (perms p) (polyCols ph0 (relabelHaps υ ph1) n) sf := by
   rw [polyCols_relabel_right]
   apply attainable_transport (perms p) (fun σ => relabel υ σ) _ _ _ _ _ sf h
-  · intro σ hσ; exact perms_comp p hp υ hυ σ hσ
+  · intro σ hσ; exact perms_comp p υ hυ σ hσ
   · intro a ha b hb
-    exact hamming_relabel_right p υ a b (perms_perm_range p hp υ hυ) (perms_length p hp a ha) (perms_length p hp b hb)
+    exact hamming_relabel_right p υ a b (perms_perm_range p υ hυ) (perms_length p a ha) (perms_length p b hb)
   · intro σ hσ c hc
     simp only [polyCols, List.mem_map] at hc
     obtain ⟨i, _, rfl⟩ := hc
-    exact numFlips_relabel_right p υ σ _ _ (perms_perm_range p hp υ hυ) (perms_length p hp σ hσ)
+    exact numFlips_relabel_right p υ σ _ _ (perms_perm_range p υ hυ) (perms_length p σ hσ)
       (by rw [column_length, hl])
 
 /-- the set of attainable pairs is the same for every listing order of either phasing -/
-theorem attainable_relabel_iff (p : Nat) (hp : p ≤ 4) (τ υ : Perm) (hτ : τ ∈ perms p) (hυ : υ ∈ perms p)
+theorem attainable_relabel_iff (p : Nat) (τ υ : Perm) (hτ : τ ∈ perms p) (hυ : υ ∈ perms p)
     (ph0 ph1 : List Hap) (n : Nat) (h0 : ph0.length = p) (h1 : ph1.length = p) (sf : Nat × Nat) :
     Attainable (perms p) (polyCols (relabelHaps τ ph0) (relabelHaps υ ph1) n) sf
       ↔ Attainable (perms p) (polyCols ph0 ph1 n) sf := by
-  obtain ⟨ι, hι, hinv⟩ := perms_inverse p hp τ hτ
-  obtain ⟨κ, hκ, hinv'⟩ := perms_inverse p hp υ hυ
-  have hl' : (relabelHaps υ ph1).length = p := by rw [relabelHaps_length]; exact perms_length p hp υ hυ
+  obtain ⟨ι, hι, hinv⟩ := perms_inverse p τ hτ
+  obtain ⟨κ, hκ, hinv'⟩ := perms_inverse p υ hυ
+  have hl' : (relabelHaps υ ph1).length = p := by rw [relabelHaps_length]; exact perms_length p υ hυ
   constructor
   · intro h
-    have a1 := attainable_left_imp p hp ι τ hτ hinv.symm (relabelHaps τ ph0) (relabelHaps υ ph1) n sf h
+    have a1 := attainable_left_imp p ι τ hτ hinv.symm (relabelHaps τ ph0) (relabelHaps υ ph1) n sf h
     rw [relabelHaps_inv hinv ph0 h0] at a1
-    have a2 := attainable_right_imp p hp κ hκ ph0 (relabelHaps υ ph1) n hl' sf a1
+    have a2 := attainable_right_imp p κ hκ ph0 (relabelHaps υ ph1) n hl' sf a1
     rwa [relabelHaps_inv hinv' ph1 h1] at a2
   · intro h
-    exact attainable_left_imp p hp τ ι hι hinv ph0 (relabelHaps υ ph1) n sf
-      (attainable_right_imp p hp υ hυ ph0 ph1 n h1 sf h)
+    exact attainable_left_imp p τ ι hι hinv ph0 (relabelHaps υ ph1) n sf
+      (attainable_right_imp p υ hυ ph0 ph1 n h1 sf h)
 
 theorem mem_polyBrute_snd (p sc fc : Nat) (cols : List (List Nat × List Nat)) (sf : Nat × Nat) :
     sf ∈ (Spec.polyBrute p sc fc cols).2 ↔
